@@ -107,10 +107,8 @@ def ensure(config="ws", verbose=True):
             "CARGO_NET_OFFLINE": "true",
         })
         cmd = ["cargo", "+nightly", "check", "--offline", "-p", "steel-core"]
-        if CONFIGS[config] is None:
+        if feats:
             cmd += ["--features", " ".join(feats)]
-        else:
-            cmd += ["--no-default-features", "--features", " ".join(["std", "modules"] + feats)]
         t0 = time.time()
         if verbose:
             print("[facts] running driver over /repo (%s, features: %s)" % (config, " ".join(feats)), file=sys.stderr)
@@ -119,6 +117,8 @@ def ensure(config="ws", verbose=True):
             sys.stderr.write(p.stdout[-6000:])
             raise RuntimeError("cargo check of /repo failed (the tree does not build): cannot analyse")
         for c in EXPECT:
+            if config == "min" and c == "steel_rc":
+                continue  # steel-rc is only a dependency under the `biased` feature
             if not os.path.exists(os.path.join(tmp, c + ".json")):
                 raise RuntimeError("fact file for crate %s was not written (driver skipped?)" % c)
         meta = {"config": config, "features": feats, "hash": key, "hashed_files": nfiles,
